@@ -160,7 +160,7 @@ func RunEvict(w *bufio.Writer, seed int64, tier string, replay string) error {
 		seqs = evictScripts()
 		n, length := 260, 30
 		if tier == "thorough" {
-			n, length = 3000, 60
+			n, length = 1500, 50
 		}
 		g := NewGen(seed)
 		for i := 0; i < n; i++ {
